@@ -13,6 +13,7 @@ import (
 	"encoding/binary"
 	"fmt"
 	"math/big"
+	"sync"
 	"testing"
 
 	"github.com/bytemare/secp256k1"
@@ -61,6 +62,38 @@ func pointTable() []ref.Point {
 	return []ref.Point{g, ref.Double(g), ref.Neg(g), h, ref.Endo(h), ref.Infinity(), ref.Mul(big.NewInt(7), g)}
 }
 
+// The wide operand families of the working-set cases: scalar i is (i+1)*C mod n, point i is (i+1)*H (C, H fixed hash outputs);
+// the multiples are computed incrementally by the reference model and shared read-only.
+type multiples struct {
+	mu   sync.Mutex
+	base ref.Point
+	tab  []ref.Point
+}
+
+func (m *multiples) at(i int) ref.Point {
+	m.mu.Lock()
+	defer m.mu.Unlock()
+	for len(m.tab) <= i {
+		if len(m.tab) == 0 {
+			m.tab = append(m.tab, m.base)
+		} else {
+			m.tab = append(m.tab, ref.Add(m.tab[len(m.tab)-1], m.base))
+		}
+	}
+	return m.tab[i]
+}
+
+var (
+	wideC  = ref.HashToScalar([]byte("endure-wide"), dst)
+	wideH  = func() ref.Point { h, _ := ref.HashToCurve([]byte("endure-wide-p"), dst); return h }()
+	mulH   = &multiples{base: wideH}
+	mulCH  = &multiples{base: ref.Mul(wideC, wideH)}
+	mulCG  = &multiples{base: ref.Mul(wideC, ref.G())}
+	wideSc = func(i int) *big.Int {
+		return new(big.Int).Mod(new(big.Int).Mul(big.NewInt(int64(i+1)), wideC), ref.N)
+	}
+)
+
 func b2i(b bool) int {
 	if b {
 		return 1
@@ -86,6 +119,22 @@ var ops = map[string]endcore.OpDef{
 			})
 		}
 		return out
+	}, Wide: func(i int) endcore.Variant {
+		v := wideSc(i)
+		s := mkS(v)
+		var want [256]uint8
+		for j := range want {
+			want[j] = uint8(v.Bit(j))
+		}
+		return func() string {
+			if got := s.Bits(); got != want {
+				return fmt.Sprintf("Bits(%x) = %v", v, got)
+			}
+			if got := mkS(v).Bits(); got != want { // (and through another object holding the same value)
+				return fmt.Sprintf("Bits(%x) of a fresh object = %v", v, got)
+			}
+			return ""
+		}
 	}},
 	"Scalar.compare": {Prop: "C13", Cost: 0, Build: func() []endcore.Variant {
 		var out []endcore.Variant
@@ -155,6 +204,19 @@ var ops = map[string]endcore.OpDef{
 			})
 		}
 		return out
+	}, Wide: func(i int) endcore.Variant {
+		v := wideSc(i)
+		s, enc, r := mkS(v), ref.Bytes32(v), secp256k1.NewScalar()
+		return func() string {
+			got := s.Encode()
+			if !bytes.Equal(got, enc) {
+				return fmt.Sprintf("Encode = %x, want %x", got, enc)
+			}
+			if err := r.Decode(enc); err != nil || r.Equal(s) != 1 || !bytes.Equal(r.Encode(), enc) {
+				return fmt.Sprintf("Decode(%x) failed: %v / %x", enc, err, r.Encode())
+			}
+			return ""
+		}
 	}},
 	"Scalar.arith": {Prop: "C06", Cost: 1, Build: func() []endcore.Variant {
 		var out []endcore.Variant
@@ -183,6 +245,20 @@ var ops = map[string]endcore.OpDef{
 			})
 		}
 		return out
+	}, Wide: func(i int) endcore.Variant {
+		a, b := wideSc(i), wideSc(2*i+7)
+		sa, sb, r := mkS(a), mkS(b), secp256k1.NewScalar()
+		wadd := ref.Bytes32(new(big.Int).Mod(new(big.Int).Add(a, b), ref.N))
+		wmul := ref.Bytes32(new(big.Int).Mod(new(big.Int).Mul(a, b), ref.N))
+		return func() string {
+			if got := r.Set(sa).Add(sb).Encode(); !bytes.Equal(got, wadd) {
+				return fmt.Sprintf("Add = %x, want %x", got, wadd)
+			}
+			if got := r.Set(sa).Multiply(sb).Encode(); !bytes.Equal(got, wmul) {
+				return fmt.Sprintf("Multiply = %x, want %x", got, wmul)
+			}
+			return ""
+		}
 	}},
 	"Scalar.invert-pow": {Prop: "C06", Cost: 2, Build: func() []endcore.Variant {
 		var out []endcore.Variant
@@ -206,6 +282,16 @@ var ops = map[string]endcore.OpDef{
 			})
 		}
 		return out
+	}, Wide: func(i int) endcore.Variant {
+		a := wideSc(i)
+		sa, r := mkS(a), secp256k1.NewScalar()
+		winv := ref.Bytes32(new(big.Int).ModInverse(a, ref.N))
+		return func() string {
+			if got := r.Set(sa).Invert().Encode(); !bytes.Equal(got, winv) {
+				return fmt.Sprintf("Invert(%x) = %x, want %x", a, got, winv)
+			}
+			return ""
+		}
 	}},
 	"Element.decode": {Prop: "C03", Cost: 2, Build: func() []endcore.Variant {
 		var out []endcore.Variant
@@ -235,6 +321,19 @@ var ops = map[string]endcore.OpDef{
 			})
 		}
 		return out
+	}, Wide: func(i int) endcore.Variant {
+		p := mulH.at(i)
+		enc, r := ref.Compress(p), secp256k1.Base()
+		if i%3 == 1 {
+			enc = ref.Uncompressed(p)
+		}
+		want := ref.Compress(p)
+		return func() string {
+			if err := r.Decode(enc); err != nil || !bytes.Equal(r.Encode(), want) {
+				return fmt.Sprintf("Decode(%x): %v, holds %x", enc, err, r.Encode())
+			}
+			return ""
+		}
 	}},
 	"Element.encode": {Prop: "C04", Cost: 2, Build: func() []endcore.Variant {
 		var out []endcore.Variant
@@ -260,6 +359,19 @@ var ops = map[string]endcore.OpDef{
 			})
 		}
 		return out
+	}, Wide: func(i int) endcore.Variant {
+		p := mulH.at(i)
+		e := mkE(p).Add(secp256k1.Base()).Subtract(secp256k1.Base()) // Z != 1
+		wc, wu := ref.Compress(p), ref.Uncompressed(p)
+		return func() string {
+			if got := e.Encode(); !bytes.Equal(got, wc) {
+				return fmt.Sprintf("Encode = %x, want %x", got, wc)
+			}
+			if gu := e.EncodeUncompressed(); !bytes.Equal(gu, wu) {
+				return fmt.Sprintf("EncodeUncompressed = %x, want %x", gu, wu)
+			}
+			return ""
+		}
 	}},
 	"Element.equal": {Prop: "C05", Cost: 1, Build: func() []endcore.Variant {
 		var out []endcore.Variant
@@ -277,6 +389,15 @@ var ops = map[string]endcore.OpDef{
 			}
 		}
 		return out
+	}, Wide: func(i int) endcore.Variant {
+		p, q := mulH.at(i), mulH.at(i+1)
+		a, a2, b := mkE(p), mkE(p).Add(secp256k1.Base()).Subtract(secp256k1.Base()), mkE(q)
+		return func() string {
+			if g1, g2, g3 := a.Equal(a2), a2.Equal(a), a.Equal(b); g1 != 1 || g2 != 1 || g3 != 0 {
+				return fmt.Sprintf("Equal(%s, same point) = %d / %d, Equal(%s, %s) = %d", p, g1, g2, p, q, g3)
+			}
+			return ""
+		}
 	}},
 	"Element.grouplaw": {Prop: "C02", Cost: 1, Build: func() []endcore.Variant {
 		var out []endcore.Variant
@@ -302,6 +423,19 @@ var ops = map[string]endcore.OpDef{
 			})
 		}
 		return out
+	}, Wide: func(i int) endcore.Variant {
+		p, q := mulH.at(i), mulH.at(2*i+5)
+		a, b, r := mkE(p), mkE(q), secp256k1.NewElement()
+		wadd, wdbl := ref.Compress(mulH.at(3*i+6)), ref.Compress(mulH.at(2*i+1))
+		return func() string {
+			if got := r.Set(a).Add(b).Encode(); !bytes.Equal(got, wadd) {
+				return fmt.Sprintf("%s + %s wrong: %x", p, q, got)
+			}
+			if got := r.Set(a).Double().Encode(); !bytes.Equal(got, wdbl) {
+				return fmt.Sprintf("2 %s wrong: %x", p, got)
+			}
+			return ""
+		}
 	}},
 	"Element.Multiply": {Prop: "C01", Cost: 3, Build: func() []endcore.Variant {
 		var out []endcore.Variant
@@ -317,45 +451,72 @@ var ops = map[string]endcore.OpDef{
 			})
 		}
 		return out
+	}, Wide: func(i int) endcore.Variant {
+		// even i: the scalar varies ([s_i] G), odd i: the point varies ([C] P_i)
+		a, s, want := secp256k1.Base(), mkS(wideSc(i)), ref.Compress(mulCG.at(i))
+		if i%2 == 1 {
+			a, s, want = mkE(mulH.at(i)), mkS(wideC), ref.Compress(mulCH.at(i))
+		}
+		r := secp256k1.NewElement()
+		return func() string {
+			if got := r.Set(a).Multiply(s).Encode(); !bytes.Equal(got, want) {
+				return fmt.Sprintf("[%x] %x = %x, want %x", s.Encode(), a.Encode(), got, want)
+			}
+			return ""
+		}
 	}},
-	"HashToScalar":  {Prop: "C09", Cost: 1, Build: func() []endcore.Variant { return hashVariants("HashToScalar") }},
-	"HashToGroup":   {Prop: "C08", Cost: 3, Build: func() []endcore.Variant { return hashVariants("HashToGroup") }},
-	"EncodeToGroup": {Prop: "C08", Cost: 3, Build: func() []endcore.Variant { return hashVariants("EncodeToGroup") }},
+	"HashToScalar":  {Prop: "C09", Cost: 1, Build: func() []endcore.Variant { return hashVariants("HashToScalar") }, Wide: func(i int) endcore.Variant { return hashVariant("HashToScalar", wideMsg(i), dst, 2) }},
+	"HashToGroup":   {Prop: "C08", Cost: 3, Build: func() []endcore.Variant { return hashVariants("HashToGroup") }, Wide: func(i int) endcore.Variant { return hashVariant("HashToGroup", wideMsg(i), dst, 2) }},
+	"EncodeToGroup": {Prop: "C08", Cost: 3, Build: func() []endcore.Variant { return hashVariants("EncodeToGroup") }, Wide: func(i int) endcore.Variant { return hashVariant("EncodeToGroup", wideMsg(i), dst, 2) }},
 }
+
+func wideMsg(i int) []byte { return []byte(fmt.Sprintf("endure-wide-message-%d", i)) }
 
 func hashVariants(fn string) []endcore.Variant {
 	var out []endcore.Variant
 	long := bytes.Repeat([]byte{'L'}, 300)
 	for _, in := range []struct{ msg, dst []byte }{{nil, dst}, {[]byte("abc"), dst}, {bytes.Repeat([]byte{'m'}, 200), dst}, {[]byte("abc"), long}, {[]byte("abcdef0123456789"), []byte("d")}, {bytes.Repeat([]byte{0}, 64), dst[:16]}} {
-		in := in
-		var want []byte
-		switch fn {
-		case "HashToScalar":
-			want = ref.Bytes32(ref.HashToScalar(in.msg, in.dst))
-		case "HashToGroup":
-			p, _ := ref.HashToCurve(in.msg, in.dst)
-			want = ref.Compress(p)
-		default:
-			p, _ := ref.EncodeToCurve(in.msg, in.dst)
-			want = ref.Compress(p)
-		}
-		out = append(out, func() string {
-			var got []byte
-			switch fn {
-			case "HashToScalar":
-				got = secp256k1.HashToScalar(in.msg, in.dst).Encode()
-			case "HashToGroup":
-				got = secp256k1.HashToGroup(in.msg, in.dst).Encode()
-			default:
-				got = secp256k1.EncodeToGroup(in.msg, in.dst).Encode()
-			}
-			if !bytes.Equal(got, want) {
-				return fmt.Sprintf("%s(msg[%d], dst[%d]) = %x, want %x", fn, len(in.msg), len(in.dst), got, want)
-			}
-			return ""
-		})
+		out = append(out, hashVariant(fn, in.msg, in.dst, 320))
 	}
 	return out
+}
+
+func hashVariant(fn string, msg, dst []byte, keep int) endcore.Variant {
+	var want []byte
+	switch fn {
+	case "HashToScalar":
+		want = ref.Bytes32(ref.HashToScalar(msg, dst))
+	case "HashToGroup":
+		p, _ := ref.HashToCurve(msg, dst)
+		want = ref.Compress(p)
+	default:
+		p, _ := ref.EncodeToCurve(msg, dst)
+		want = ref.Compress(p)
+	}
+	// the last results are kept and looked at again hundreds of calls later: a returned object belongs to the caller for good
+	held := make([]interface{ Encode() []byte }, keep)
+	pos := 0
+	return func() string {
+		var res interface{ Encode() []byte }
+		switch fn {
+		case "HashToScalar":
+			res = secp256k1.HashToScalar(msg, dst)
+		case "HashToGroup":
+			res = secp256k1.HashToGroup(msg, dst)
+		default:
+			res = secp256k1.EncodeToGroup(msg, dst)
+		}
+		if got := res.Encode(); !bytes.Equal(got, want) {
+			return fmt.Sprintf("%s(msg[%d], dst[%d]) = %x, want %x", fn, len(msg), len(dst), got, want)
+		}
+		if h := held[pos]; h != nil {
+			if got := h.Encode(); !bytes.Equal(got, want) {
+				return fmt.Sprintf("the object %s(msg[%d], dst[%d]) returned %d calls of this variant ago (correct then: %x) now shows %x", fn, len(msg), len(dst), len(held), want, got)
+			}
+		}
+		held[pos], pos = res, (pos+1)%len(held)
+		return ""
+	}
 }
 
 // counterReader is an entropy source that delivers the blocks 7f..(base+1), 7f..(base+2), ... (32 bytes, big endian), every
